@@ -435,6 +435,30 @@ func (m *mon) between(h *tssworld.Hist) {
 		if m.tr != nil && m.tr.incoming == gid {
 			return
 		}
+		// a third of the time aim at a group that never finished (or failed) key generation instead: refused whatever else holds
+		if forceAt.IsZero() && rng.Chance(1, 3) {
+			var unfinished []tss.GroupID
+			for g, gi := range m.groups {
+				if gi.status != tsstypes.GROUP_STATUS_ACTIVE && !(m.tr != nil && m.tr.incoming == g) {
+					unfinished = append(unfinished, g)
+				}
+			}
+			sort.Slice(unfinished, func(a, b int) bool { return unfinished[a] < unfinished[b] })
+			if len(unfinished) > 0 {
+				ug := sim.Pick(rng, unfinished)
+				_, err := w.Authority(bandtsstypes.NewMsgForceTransitionGroup(ug, w.Time.Add(time.Duration(rng.Range(2, 12))*time.Second), sim.GovAddr().String()))
+				h.Logf("authority: force to group %d with status %s -> err=%v", ug, m.groups[ug].status, err)
+				if err == nil {
+					h.Violate("force-acceptance", fmt.Sprintf("ForceTransitionGroup(%d) accepted although the group's key generation status is %s", ug, m.groups[ug].status))
+					return
+				}
+				h.Run.Count("force-to-unfinished-group-rejected:"+m.groups[ug].status.String(), 1)
+				if st := m.groups[ug].status; st == tsstypes.GROUP_STATUS_ROUND_1 || st == tsstypes.GROUP_STATUS_ROUND_2 || st == tsstypes.GROUP_STATUS_ROUND_3 {
+					h.Run.Count("force-to-group-still-in-key-generation-rejected", 1)
+				}
+				return
+			}
+		}
 		exec := w.Time.Add(time.Duration(rng.Range(2, 12)) * time.Second)
 		if !forceAt.IsZero() {
 			exec = forceAt
@@ -645,7 +669,7 @@ func main() {
 	for _, c := range []string{"executed", "executed:forced", "handover-signed", "dropped:dkg-failed", "dropped:dkg-expired", "second-proposal-rejected",
 		"exec-time-out-of-window-rejected", "requests-while-awaiting-execution", "incoming-group-signings-created", "member-list-checked",
 		"gov-routed-proposal-accepted", "gov-routed-proposal-rejected:transition-due-in-the-same-block",
-		"stale-handover-signing-completed-while-the-next-transition-waits-for-its-own"} {
+		"stale-handover-signing-completed-while-the-next-transition-waits-for-its-own", "force-to-group-still-in-key-generation-rejected"} {
 		run.Require(c, 1)
 	}
 	run.Finish()
